@@ -17,6 +17,16 @@ CLAIMS = {
     },
 }
 
+CLAIMS["C23"] = {
+    "technique": "Lean 4 proof over hand model + exhaustive correspondence",
+    "text": "Theorems for all strings, coordinates and schemas on the model of coordinate.rs: parse s succeeds iff s is one of the five "
+            "forms over valid Names (coord_parse_iff), print∘parse = id and parse∘print = id (coord_parse_print, coord_print_parse), "
+            "lookup returns the element with exactly those names and succeeds iff it exists (lookup_*_iff, lookup_ok_names). "
+            "The model is tied to the code by exhaustive correspondence over all strings ≤ 5/6 over an 11-symbol alphabet, mutated valid "
+            "coordinates, and ~30k lookups on three schemas; an independent recogniser of the five forms is evaluated on the implementation.",
+    "note": TB + "Name validity is modelled on chars (bytes ≥ 0x80 are never name bytes). IndexMap lookup is modelled as association-list lookup.",
+}
+
 ALL = [f"C{i:02d}" for i in range(1, 34)]
 NOT_APPLICABLE = {p: "check not built yet in this session (planned, see DESIGN.md §9); not a claim that the technique cannot apply"
                   for p in ALL if p not in CLAIMS}
